@@ -111,7 +111,7 @@ def gen_world(rng: random.Random):
             w.update({"nrows": rng.randint(1, 12), "ncols": rng.randint(2, 12), "nch": rng.randint(2, 4),
                       "nmodes": rng.randint(1, 4), "p_nan": rng.choice([0.0, 0.2, 0.5, 0.8]),
                       "dups": rng.random() < 0.4, "empty_cols": rng.random() < 0.3,
-                      "stable_mode": rng.random() < 0.25,
+                      "stable_mode": rng.random() < 0.25, "near_twins": rng.random() < 0.25,
                       "cov": variant == "SSI" and rng.random() < 0.25})
             w["ordmin"] = rng.choice([0, 0, 0, 1, 2, w["ncols"] // 2])
     r = rng.random()
@@ -164,6 +164,15 @@ def gen_table(w):
                 col = Fn[:, c]
                 r_ = int(np.nanargmin(np.abs(col - fstar))) if np.isfinite(col).any() else int(rng.integers(nr))
                 Fn[r_, c] = fstar
+    if w.get("near_twins") and nr >= 2 and np.isfinite(Fn).any():
+        # two DIFFERENT retained poles at the same order whose frequencies agree to 1e-7 .. 1e-6 relative (repeated
+        # eigenfrequencies of a symmetric structure): they differ in damping and shape, and a pick of the second must
+        # not be extracted as the first
+        ok = np.argwhere(np.isfinite(Fn))
+        for _ in range(min(3, len(ok))):
+            r0, c0 = ok[rng.integers(len(ok))]
+            r1 = int((r0 + 1 + rng.integers(nr - 1)) % nr)
+            Fn[r1, c0] = Fn[r0, c0] * (1.0 + rng.choice([-1.0, 1.0]) * rng.uniform(1e-7, 1e-6))
     if w["empty_cols"]:
         Fn[:, rng.integers(nc)] = np.nan
     nanm = np.isnan(Fn)
